@@ -45,6 +45,10 @@ def main():
     except (ValueError, OSError):
         pass
     sys.setrecursionlimit(3000)
+    if os.environ.get("VERIF_DUMP_AFTER"):
+        # where a straggler spends its time: a traceback every N seconds on the shard's log
+        import faulthandler
+        faulthandler.dump_traceback_later(int(os.environ["VERIF_DUMP_AFTER"]), repeat=True)
     ctx = Ctx(prop, tier, int(seed), int(shard), int(nshards), payload)
     cov = None
     if int(shard) == int(nshards) - 1 and mode == "run" and os.environ.get("VERIF_NO_COVERAGE") != "1":
